@@ -1,7 +1,7 @@
 """C05 Set operators match datapoints by identifiers across all operands."""
 import random
 
-from harness import b1, gen
+from harness import termgen, b1, gen
 
 LEVEL = 'model_checking'
 
@@ -74,7 +74,7 @@ def main(chk):
     chk.notes['model'] = {'module': 'GenSets', 'distinct_states': r.states, 'transitions_emitted': len(units)}
     b1.replay(chk, units, keyfn, sample=1500 if quick else 15000, seed=chk.seed, label='g')
     # B2: random larger inputs validated by the trace spec
-    ru = random_units(rnd, 300 if quick else 3000)
+    ru = random_units(rnd, 300 if quick else 3000) + termgen.random_exists_units(rnd, 60 if quick else 800)     # + exists_in (key presence across datasets)
     lu, lo, _ = b1.validate(chk, ru, keyfn)
     b1.binding_demo(chk, lu, lo, corrupt)
     chk.cov['rule'] = ('B1: every transition of the TLC model GenSets (all subsets of 3 keys per operand, 2-%d operands in every '
